@@ -6,10 +6,20 @@
   tags), regenerated from the current source by reflection with encoding/json's own rules.  The theorem
   says that no secret-bearing field is among them.  Errors, log lines and wire encodings are decided by the
   secret search of the harness (see the evidence).
+
+  The search itself rests on two facts about renderings, proved here for every secret, every surrounding
+  data and every position: a rendering that works byte by byte (hex in either case, decimal lists) shows the
+  rendering of a contained secret verbatim (`bytewise_window`, `hex_window`); base64 of any data that
+  contains the secret shows, verbatim, the base64 of the secret's aligned core for the residue of its offset
+  mod 3 (`window`), and the core misses at most four bytes of the secret (`core_covers`).  So searching each
+  output for the three cores' encodings (both alphabets) and for the hex forms cannot miss a secret that was
+  written out in one of these renderings.  The cores' encodings the harness searches for are the ones these
+  definitions compute (op `b64.cores` of the model driver).
 -/
 import Krb.Gen.JsonReach
+import Krb.Model.B64
 namespace Krb.C20
-open Krb
+open Krb Krb.B64
 
 /-- fields that hold key material or passwords -/
 def secretField (f : String) : Bool :=
@@ -34,5 +44,81 @@ theorem json_reaches_key_types :
 
 /-- the detector side of the argument: a field list that does contain a key field is flagged -/
 example : leaksSecret ("x", ["Entries", "Key", "KeyValue"], "bytes") = true := by decide
+
+/-! ## what a search for renderings of a secret cannot miss -/
+
+theorem encode_append (url : Bool) (n : Nat) (a b : Bytes) (h : a.length = 3 * n) :
+    encode url (a ++ b) = encode url a ++ encode url b := by
+  induction n generalizing a with
+  | zero =>
+    have : a = [] := List.eq_nil_of_length_eq_zero (by omega)
+    subst this; simp [encode]
+  | succ n ih =>
+    match a, h with
+    | x :: y :: z :: a', h =>
+      have h' : a'.length = 3 * n := by simp at h; omega
+      simp only [List.cons_append, encode]
+      rw [ih a' h']
+      simp
+    | [], h => simp at h
+    | [_], h => simp at h; omega
+    | [_, _], h => simp at h; omega
+
+theorem core_length (r : Nat) (s : Bytes) : ∃ n, (core r s).length = 3 * n := by
+  refine ⟨(s.drop ((3 - r % 3) % 3)).length / 3, ?_⟩
+  unfold core
+  simp only [List.length_take]
+  have := Nat.div_mul_le_self (s.drop ((3 - r % 3) % 3)).length 3
+  omega
+
+/-- **window.** Wherever a secret sits inside data that is base64-encoded as a whole, the encoding of the
+    secret's aligned core (for the offset's residue mod 3) appears verbatim in the output, provided the
+    secret is long enough to reach a group boundary. -/
+theorem window (url : Bool) (p s q : Bytes) (hlen : 2 ≤ s.length) :
+    (encode url (core p.length s)) <:+: (encode url (p ++ s ++ q)) := by
+  have hk : (3 - p.length % 3) % 3 ≤ s.length := by omega
+  generalize hkd : (3 - p.length % 3) % 3 = k at hk
+  have hc : core p.length s = (s.drop k).take (3 * ((s.drop k).length / 3)) := by
+    unfold core; rw [hkd]
+  generalize hm : 3 * ((s.drop k).length / 3) = m at hc
+  -- p ++ s ++ q = (p ++ take k s) ++ core ++ (drop m (drop k s) ++ q)
+  have hsplit : p ++ s ++ q = (p ++ s.take k) ++ (core p.length s ++ ((s.drop k).drop m ++ q)) := by
+    rw [hc]
+    simp only [List.append_assoc]
+    rw [← List.append_assoc (List.take m (List.drop k s)), List.take_append_drop,
+      ← List.append_assoc (List.take k s), List.take_append_drop]
+  have hpre : ∃ n, (p ++ s.take k).length = 3 * n := by
+    refine ⟨(p.length + k) / 3, ?_⟩
+    simp only [List.length_append, List.length_take, Nat.min_eq_left hk]
+    omega
+  obtain ⟨n1, h1⟩ := hpre
+  obtain ⟨n2, h2⟩ := core_length p.length s
+  rw [hsplit, encode_append url n1 _ _ h1, encode_append url n2 _ _ h2]
+  exact ⟨encode url (p ++ s.take k), encode url ((s.drop k).drop m ++ q), by simp [List.append_assoc]⟩
+
+/-- the core loses at most two bytes at the front and two at the back -/
+theorem core_covers (r : Nat) (s : Bytes) : s.length ≤ (core r s).length + 4 := by
+  unfold core
+  simp only [List.length_take, List.length_drop]
+  omega
+
+example : encode false [77, 97, 110] = "TWFu".toList := by decide
+example : encode false [77, 97] = "TWE=".toList := by decide
+example : encode false [77] = "TQ==".toList := by decide
+example : core 1 [1, 2, 3, 4, 5, 6, 7, 8, 9] = [3, 4, 5, 6, 7, 8] := by decide
+
+/-! hexadecimal and decimal renderings: a rendering that works byte by byte shows a contained secret verbatim -/
+
+/-- **bytewise_window.** every rendering that maps each byte to its own run of characters shows the
+    rendering of a contained secret as a contiguous piece of the output (hex in either case is one) -/
+theorem bytewise_window (f : UInt8 → List Char) (p s q : Bytes) :
+    s.flatMap f <:+: (p ++ s ++ q).flatMap f := by
+  refine ⟨p.flatMap f, q.flatMap f, ?_⟩
+  simp [List.flatMap_append]
+
+theorem hex_window (upper : Bool) (p s q : Bytes) : hex upper s <:+: hex upper (p ++ s ++ q) :=
+  bytewise_window _ p s q
+
+example : hex false [0, 171, 255] = "00abff".toList := by decide
 
 end Krb.C20
